@@ -481,8 +481,7 @@ func (fr *Frame) builtin(st *State, b *ssa.Builtin, c *ssa.CallCommon, in ssa.In
 	case "copy":
 		ex.note("builtin copy: destination contents havocked")
 		if st2, ok := types.Unalias(c.Args[0].Type()).Underlying().(*types.Slice); ok {
-			es := ex.tm.SortOf(st2.Elem())
-			ex.havocComps(st, []string{"E." + sanitize(string(es))})
+			ex.havocComps(st, []string{ex.eComp(st2.Elem())})
 		}
 		n := ex.freshOf(st, "copy.n", types.Typ[types.Int])
 		ex.assume(st, f.And(f.Ge(n, f.Int(0)), f.Le(n, ex.lenOf(st, args[0], c.Args[0].Type()))))
@@ -551,7 +550,7 @@ func (fr *Frame) appendOp(st *State, c *ssa.CallCommon, args []*Term) *Term {
 		return ex.freshOf(st, "append", c.Args[0].Type())
 	}
 	es := ex.tm.SortOf(sl.Elem())
-	name := "E." + sanitize(string(es))
+	name := ex.eComp(sl.Elem())
 	e := ex.comp(st, name, ArraySort(SInt, ArraySort(SInt, es)))
 	add := args[1]
 	if add.sort != Sort("Slice") { // append([]byte, string...)
@@ -683,10 +682,10 @@ func (fr *Frame) modifiedInLoop(li *loopInfo) ([]string, bool) {
 					set[h], set[v], set[l] = true, true, true
 				case *ssa.MakeSlice:
 					et := types.Unalias(x.Type()).Underlying().(*types.Slice).Elem()
-					set["E."+sanitize(string(ex.tm.SortOf(et)))] = true
+					set[ex.eComp(et)] = true
 				case *ssa.Convert:
 					if ex.tm.SortOf(x.Type()) == Sort("Slice") && ex.tm.SortOf(x.X.Type()) == SStr {
-						set["E.Int"] = true
+						set["E.uint8"] = true
 					}
 				case *ssa.Range:
 					set[fmt.Sprintf("IT.%s.%s", sanitize(fnKey(fn)), x.Name())] = true
@@ -699,7 +698,7 @@ func (fr *Frame) modifiedInLoop(li *loopInfo) ([]string, bool) {
 				case *ssa.Slice:
 					if pt, ok := types.Unalias(x.X.Type()).Underlying().(*types.Pointer); ok {
 						if at, ok := types.Unalias(pt.Elem()).Underlying().(*types.Array); ok {
-							set["E."+sanitize(string(ex.tm.SortOf(at.Elem())))] = true
+							set[ex.eComp(at.Elem())] = true
 						}
 					}
 				case ssa.CallInstruction:
@@ -712,7 +711,7 @@ func (fr *Frame) modifiedInLoop(li *loopInfo) ([]string, bool) {
 						switch bi.Name() {
 						case "append", "copy":
 							if sl, ok := types.Unalias(cc.Args[0].Type()).Underlying().(*types.Slice); ok {
-								set["E."+sanitize(string(ex.tm.SortOf(sl.Elem())))] = true
+								set[ex.eComp(sl.Elem())] = true
 							}
 						case "delete":
 							mt := types.Unalias(cc.Args[0].Type()).Underlying().(*types.Map)
@@ -742,6 +741,10 @@ func (fr *Frame) modifiedInLoop(li *loopInfo) ([]string, bool) {
 								continue
 							}
 						}
+						if isKeeperIface(cc.Value.Type()) {
+							set["world"] = true
+							continue
+						}
 						all = true
 						continue
 					}
@@ -755,6 +758,18 @@ func (fr *Frame) modifiedInLoop(li *loopInfo) ([]string, bool) {
 						name = callee.Origin().String()
 					}
 					if libModel(ex, name) != nil {
+						if len(libAssigns(name)) > 0 && len(cc.Args) > 0 {
+							// models that write do so through their first (pointer) argument
+							if root := localRoot(cc.Args[0]); root != nil {
+								if fn == fr.fn {
+									set["L."+fr.localName(root)] = true
+								}
+							} else {
+								for _, c := range addrComp(cc.Args[0]) {
+									set[c] = true
+								}
+							}
+						}
 						for _, c := range libAssigns(name) {
 							set[c] = true
 						}
@@ -807,11 +822,10 @@ func (ex *Exec) compsOfType(t types.Type) []string {
 		}
 		return out
 	}
-	s := ex.tm.SortOf(t)
 	if a, ok := types.Unalias(t).Underlying().(*types.Array); ok {
-		return []string{"E." + sanitize(string(ex.tm.SortOf(a.Elem())))}
+		return []string{ex.eComp(a.Elem())}
 	}
-	return []string{"P." + sanitize(string(s))}
+	return []string{ex.pComp(t)}
 }
 
 // staticComps: the heap components a store through address value v may write.
@@ -831,7 +845,7 @@ func (ex *Exec) staticComps(v ssa.Value) []string {
 			return ex.staticComps(x.X)
 		}
 		et := x.Type().Underlying().(*types.Pointer).Elem()
-		return []string{"E." + sanitize(string(ex.tm.SortOf(et)))}
+		return []string{ex.eComp(et)}
 	}
 	// phi / parameter / loaded pointer: could be interior pointer of the same element type
 	pt, ok := types.Unalias(v.Type()).Underlying().(*types.Pointer)
